@@ -253,14 +253,17 @@ def tasks(tier, seed):
     bf = KEYSIZES['Blowfish']
     for i in range(0, len(bf), 7 if q else 3):
         out.append(('Blowfish.%02d' % bf[i], 't_block', dict(cipher='Blowfish', sizes=bf[i:i + (7 if q else 3)], nblocks=nb, nkeys=8 if q else 100)))
-    out.append(('CAST', 't_block', dict(cipher='CAST', sizes=KEYSIZES['CAST'], nblocks=nb, nkeys=100 if q else 2000)))
+    cs = KEYSIZES['CAST']
+    for i in range(0, len(cs), 12 if q else 2):
+        out.append(('CAST.%02d' % cs[i], 't_block', dict(cipher='CAST', sizes=cs[i:i + (12 if q else 2)], nblocks=nb, nkeys=100 if q else 2000)))
     rc2 = KEYSIZES['ARC2']
-    for i in range(0, len(rc2), 31):
-        out.append(('ARC2.%03d' % rc2[i], 't_block', dict(cipher='ARC2', sizes=rc2[i:i + 31], nblocks=nb, nkeys=100 if q else 2000)))
+    for i in range(0, len(rc2), 31 if q else 4):
+        out.append(('ARC2.%03d' % rc2[i], 't_block', dict(cipher='ARC2', sizes=rc2[i:i + (31 if q else 4)], nblocks=nb, nkeys=100 if q else 2000)))
     for i in range(1, 257, 64):
         out.append(('ARC4.%03d' % i, 't_rc4', dict(sizes=list(range(i, i + 64)), per=8 if q else 400)))
-    out.append(('ChaCha20', 't_chacha', dict(n=700 if q else 33000)))
-    out.append(('Salsa20', 't_salsa', dict(n=1000 if q else 50000)))
+    for part in range(1 if q else 6):
+        out.append(('ChaCha20.%d' % part, 't_chacha', dict(n=700 if q else 5500)))
+        out.append(('Salsa20.%d' % part, 't_salsa', dict(n=1000 if q else 8400)))
     out.append(('EKSBlowfish', 't_eks', dict(n=12 if q else 200)))
     return out
 
